@@ -21,6 +21,11 @@ CHECKS = {
         technique="TLA+ reference definition (Slot.tla: bit-serial CRC16 + hash-tag rule, ASSUME-checked) evaluated by TLC on every recorded observation of the real KeyToSlot / CRC16 copies / slot-range key searches (trace validation, SlotTrace.tla)",
         text="The property is a functional definition; Slot.tla states it, TLC checks the published vectors and then judges every observation the driver records from the real code: exhaustively all brace layouts up to length 7 (21 845 keys), random binary keys, and the keys chosen for slot ranges (thorough: all 16 384 single-slot ranges), including that checkpoint keys are excluded by the real key filter.",
         note="TLC is the only oracle; exhaustiveness is over brace layouts with filler letters a/b, longer/binary keys are sampled."),
+    "C13": dict(
+        level="model_checking", design="DESIGN.md 4/C13",
+        technique="TLA+ contract operator (KeyFilter.tla) with TLC-checked consequences; TLC enumerates all (key-position class, arity, pass vector) cases with expected rewrites, each replayed into the real HandleFilterKeyWithCommand for every table command",
+        text="The contract is a decision procedure; TLC checks its consequences on the whole finite case space (arity <= 6 quick / 9 thorough) and every case is instantiated for every command of the tool's own table under whitelist, blacklist and no filter, comparing the forwarded argument list exactly.",
+        note="Key positions come from the independent table inside KeyFilter.tla (Redis COMMAND INFO convention); only valid arities are generated."),
 }
 
 NOT_YET = "check not built yet in this session (work in progress; see DESIGN.md section 7 for the order)"
